@@ -79,6 +79,8 @@ class _ClientProto:
         self.client_id = client_id
         self._closed = False
         self._waiters = {}
+        self.hold_next = 0       # hold back the replies of the next n requests (scenario tests)
+        self.held = []
 
     # HubProtocol side
     def send(self, req_id, waiter, payload):
@@ -90,8 +92,18 @@ class _ClientProto:
     # CompilerServerProtocol side
     def reply(self, req_id, resp):
         w = self._waiters.pop(req_id)
+        if self.hold_next > 0:
+            self.hold_next -= 1
+            self.held.append((w, bytes(resp)))
+            return
         if not w.done():
             w.set_result(memoryview(bytes(resp)))
+
+    def release_held(self):
+        for w, resp in self.held:
+            if not w.done():
+                w.set_result(memoryview(resp))
+        self.held = []
 
 
 class _Transport:
@@ -144,6 +156,7 @@ class RigMT:
             self.wmods.append(wm)
             self.wconns.append(_WorkerConn(self, i))
         self.workers = []
+        self.protos = {}
         self.pools = {}      # client id -> RemotePool
         self.rworkers = {}   # client id -> RemoteWorker
 
@@ -167,6 +180,7 @@ class RigMT:
                             schema_class_layout='layout', dbindex=_DbIndex((dbs, glob, sys_)))
             p._worker = self.loop.create_future()
             proto = _ClientProto(self, cid)
+            self.protos[cid] = proto
             # real: RemoteWorker(HubConnection(...)), call('__init_server__', ...) -> _init_server
             await p._connection_made(False, proto, _Transport(), 0, 0)
             assert p._worker.done() and p._worker.exception() is None, p._worker
